@@ -4,6 +4,7 @@ import (
 	"fmt"
 	"go/token"
 	"go/types"
+	"regexp"
 	"strings"
 
 	"golang.org/x/tools/go/ssa"
@@ -185,6 +186,11 @@ func runC06(c *Ctx, prop string) {
 				if gl, ok := g.X.(*ssa.Global); ok && gl.Name() == "rComment" {
 					okTfc = true
 				}
+			}
+		}
+		if !okTfc && tfc != nil {
+			if _, _, okScan := literalScanForm(tfc); okScan {
+				okTfc = true // literal-scan form of the comment pattern (its language is judged by the TAIL rule)
 			}
 		}
 		if !okTfc {
@@ -482,6 +488,13 @@ func runC06(c *Ctx, prop string) {
 		want := map[string]string{"rInject": "`[^\\n]+`$", "rTags": `^(?:[0-9A-Za-z_]+:"[^"]+")$`, "rComment": `@tag [^\n]*`}
 		for name, ref := range want {
 			pg, ok := pats[name]
+			if !ok && name == "rComment" && tfc != nil {
+				// the comment pattern replaced by a literal scan: first occurrence of a constant prefix, text
+				// behind it up to the first newline — the language of `prefix(.*)`
+				if prefix, pos, okScan := literalScanForm(tfc); okScan {
+					pg, ok = patGlobal{Pat: regexp.QuoteMeta(prefix) + "(.*)", Pos: pos}, true
+				}
+			}
 			if !ok {
 				c.Unk(prop+"-TAIL", "file."+name, "language", token.NoPos, "pattern variable not found or not constant")
 				continue
@@ -1071,4 +1084,124 @@ func firstPosOfIf(iff *ssa.If, b *ssa.BasicBlock) token.Pos {
 		return v.Pos()
 	}
 	return firstPos(b)
+}
+
+// literalScanForm recognises the comment-tag extractor written without a regular expression:
+//
+//	i := strings.Index(comment, K); if i < 0 { return "" }
+//	tag := comment[i+len(K):]; if j := strings.IndexByte(tag, '\n'); j >= 0 { tag = tag[:j] }; return tag
+//
+// which yields exactly the first submatch of `K(.*)` (leftmost occurrence of K, then everything up to the
+// end of the line). Returned: the constant prefix K.
+func literalScanForm(fn *ssa.Function) (string, token.Pos, bool) {
+	if fn == nil || len(fn.Params) != 1 {
+		return "", token.NoPos, false
+	}
+	text := ssa.Value(fn.Params[0])
+	var idx *ssa.Call
+	prefix := ""
+	nIdx := 0
+	for _, b := range fn.Blocks {
+		for _, ins := range b.Instrs {
+			c, ok := ins.(*ssa.Call)
+			if !ok || calleeName(&c.Call) != "strings.Index" || c.Call.Args[0] != text {
+				continue
+			}
+			if k, ok := constString(c.Call.Args[1]); ok && k != "" {
+				idx, prefix = c, k
+				nIdx++
+			}
+		}
+	}
+	if idx == nil || nIdx != 1 {
+		return "", token.NoPos, false
+	}
+	// the cut behind the prefix, and the cut at the first newline of that remainder
+	var after *ssa.Slice
+	for _, b := range fn.Blocks {
+		for _, ins := range b.Instrs {
+			sl, ok := ins.(*ssa.Slice)
+			if !ok || sl.X != text || sl.High != nil || sl.Low == nil {
+				continue
+			}
+			if bo, ok := sl.Low.(*ssa.BinOp); ok && bo.Op == token.ADD {
+				for _, pr := range [][2]ssa.Value{{bo.X, bo.Y}, {bo.Y, bo.X}} {
+					if k, isK := constInt(pr[1]); isK && pr[0] == ssa.Value(idx) && int(k) == len(prefix) {
+						after = sl
+					}
+				}
+			}
+		}
+	}
+	if after == nil {
+		return "", token.NoPos, false
+	}
+	var eol *ssa.Call
+	var lineCut *ssa.Slice
+	for _, b := range fn.Blocks {
+		for _, ins := range b.Instrs {
+			switch x := ins.(type) {
+			case *ssa.Call:
+				nm := calleeName(&x.Call)
+				if (nm == "strings.IndexByte" || nm == "strings.Index") && x.Call.Args[0] == ssa.Value(after) {
+					if k, ok := constInt(x.Call.Args[1]); ok && k == '\n' {
+						eol = x
+					}
+					if k, ok := constString(x.Call.Args[1]); ok && k == "\n" {
+						eol = x
+					}
+				}
+			case *ssa.Slice:
+				if x.X == ssa.Value(after) && x.Low == nil && x.High != nil {
+					lineCut = x
+				}
+			}
+		}
+	}
+	if eol == nil || lineCut == nil || lineCut.High != ssa.Value(eol) {
+		return "", token.NoPos, false
+	}
+	// every return hands back "", the remainder, or the remainder cut at the newline
+	okRet := true
+	var walk func(v ssa.Value, d int) bool
+	walk = func(v ssa.Value, d int) bool {
+		if d > 6 {
+			return false
+		}
+		switch x := v.(type) {
+		case *ssa.Const:
+			k, ok := constString(x)
+			return ok && k == ""
+		case *ssa.Slice:
+			return x == after || x == lineCut
+		case *ssa.Phi:
+			for _, e := range x.Edges {
+				if !walk(e, d+1) {
+					return false
+				}
+			}
+			return true
+		case *ssa.UnOp:
+			if cell, ok := x.X.(*ssa.Alloc); ok {
+				for _, r := range refs(cell) {
+					if st, ok := r.(*ssa.Store); ok && st.Addr == ssa.Value(cell) && !walk(st.Val, d+1) {
+						return false
+					}
+				}
+				return true
+			}
+		}
+		return false
+	}
+	for _, b := range fn.Blocks {
+		if ret, ok := b.Instrs[len(b.Instrs)-1].(*ssa.Return); ok {
+			if len(ret.Results) != 1 || !walk(ret.Results[0], 0) {
+				okRet = false
+			}
+		}
+	}
+	if !okRet {
+		return "", token.NoPos, false
+	}
+	return prefix, idx.Pos(), true
 }
